@@ -36,7 +36,7 @@ Qed.
 
 Lemma dv_list f l : decode_value (S f) (BList l) = (do l' <- mapM (decode_value f) l; Ok (PList l')).
 Proof. reflexivity. Qed.
-Lemma dv_dict f kvs : decode_value (S f) (BDict kvs) =
+Lemma dv_dict f kvs : decode_value (S (S f)) (BDict kvs) =
   (do l' <- mapM (fun kv => do v' <- decode_value f (snd kv);
                           Ok (if utf8_valid (fst kv) then PStr (fst kv) else PBytes (fst kv), v')) kvs;
    Ok (PDict l')).
@@ -105,6 +105,7 @@ Proof.
   - rewrite ev_dict in H. destruct f as [|f]; [discriminate|]. rewrite ed_eq in H. rewrite Hk in H.
     rewrite (sort_kvs_strict skvs Hst) in H.
     apply bind_ok in H as (enc & Hm & H). inversion H; subst.
+    destruct f' as [|f']; [lia|].
     rewrite dv_dict. rewrite (dict_roundtrip f f' skvs enc); [|clear Hm|exact Hm].
     + cbn [bind]. rewrite <- (str_keys_inv kvs skvs Hk). reflexivity.
     + apply Forall_forall. intros kv Hkv. split; [apply (proj1 (Forall_forall _ _) Hu kv Hkv)|].
